@@ -1,16 +1,21 @@
 #!/venv/bin/python
 """Run the registered check of a seeded change against a scratch copy of /repo with the
-patch applied (never touches /repo).  usage: seedtest.py <seeded-id>... [--tier quick]
+patch applied (never touches /repo).  usage: seedtest.py <seeded-id>... [--tier quick] [--inplace]
+With --inplace the patch is applied to /repo itself (git -C /repo apply), the check runs against /repo,
+and the patch is undone straight afterwards (git -C /repo checkout -- .): only when nobody else works in /repo.
 Prints one line per seed: DETECTED (exit 1 + VIOLATION line) / MISSED (exit 0) / ERROR."""
 import json, os, shutil, subprocess, sys, tempfile, time
 VERIF = os.path.dirname(os.path.dirname(os.path.dirname(os.path.abspath(__file__))))
 tier = "quick"
+inplace = False
 ids = []
 args = sys.argv[1:]
 while args:
     a = args.pop(0)
     if a == "--tier":
         tier = args.pop(0)
+    elif a == "--inplace":
+        inplace = True
     else:
         ids.append(a)
 if not ids:
@@ -21,9 +26,18 @@ for sid in ids:
     pid = meta["property"]
     scratch = tempfile.mkdtemp(prefix="seed_%s_" % sid, dir="/tmp")
     try:
-        subprocess.run(["git", "-C", "/repo", "worktree", "add", "--detach", "-f", scratch + "/r", "HEAD"],
-                       check=True, stdout=subprocess.DEVNULL, stderr=subprocess.DEVNULL)
-        r = subprocess.run(["git", "-C", scratch + "/r", "apply", os.path.join(d, "patch.diff")],
+        if inplace:
+            dirty = subprocess.run(["git", "-C", "/repo", "status", "--porcelain", "--untracked-files=no"],
+                                   stdout=subprocess.PIPE, text=True).stdout.strip()
+            if dirty:
+                print("%s %s ERROR /repo has uncommitted edits; not applying in place" % (sid, pid))
+                continue
+            target = "/repo"
+        else:
+            subprocess.run(["git", "-C", "/repo", "worktree", "add", "--detach", "-f", scratch + "/r", "HEAD"],
+                           check=True, stdout=subprocess.DEVNULL, stderr=subprocess.DEVNULL)
+            target = scratch + "/r"
+        r = subprocess.run(["git", "-C", target, "apply", os.path.join(d, "patch.diff")],
                            stdout=subprocess.PIPE, stderr=subprocess.STDOUT, text=True)
         if r.returncode != 0:
             print("%s %s ERROR patch does not apply: %s" % (sid, pid, r.stdout.strip()[:200]))
@@ -31,7 +45,7 @@ for sid in ids:
         # private copy of the Coq tree (sources + compiled files, mtimes kept): regenerated Gen/*.v of the
         # changed source never touch /verif/coq, so runs on the unchanged tree cannot be disturbed
         subprocess.run(["cp", "-a", os.path.join(VERIF, "coq"), scratch + "/coq"], check=True)
-        env = dict(os.environ, VERIF_REPO=scratch + "/r", VERIF_EVIDENCE_DIR=scratch + "/ev",
+        env = dict(os.environ, VERIF_REPO=target, VERIF_EVIDENCE_DIR=scratch + "/ev",
                    VERIF_REPLAY_DIR=scratch + "/replays", VERIF_COQ=scratch + "/coq", VERIF_BUILD=scratch + "/build")
         t0 = time.time()
         p = subprocess.run(["/venv/bin/python", os.path.join(VERIF, "harness/vcheck.py"), pid, "--tier", tier],
@@ -41,6 +55,8 @@ for sid in ids:
         print("%s %s %s %.0fs %s" % (sid, pid, verdict, time.time() - t0, " | ".join(lines)[:300]))
         sys.stdout.flush()
     finally:
+        if inplace:
+            subprocess.run(["git", "-C", "/repo", "checkout", "--", "."], stdout=subprocess.DEVNULL, stderr=subprocess.DEVNULL)
         subprocess.run(["git", "-C", "/repo", "worktree", "remove", "--force", scratch + "/r"],
                        stdout=subprocess.DEVNULL, stderr=subprocess.DEVNULL)
         shutil.rmtree(scratch, ignore_errors=True)
